@@ -14,6 +14,7 @@ import (
 	"time"
 
 	"github.com/hashicorp/nodeenrollment"
+	"github.com/hashicorp/nodeenrollment/rotation"
 	nodetls "github.com/hashicorp/nodeenrollment/tls"
 	"github.com/hashicorp/nodeenrollment/types"
 	"google.golang.org/protobuf/proto"
@@ -146,6 +147,7 @@ func TestProp_Listener(t *testing.T) {
 			return out
 		}
 		removedOnce := map[string]bool{}
+		replaced := 0
 
 		actions := map[string]func(*rapid.T){
 			"register": func(t *rapid.T) {
@@ -483,6 +485,27 @@ func TestProp_Listener(t *testing.T) {
 				if got && honest {
 					rec.Count("honest_controls_accepted", 1)
 				}
+			},
+			"replace-roots": func(t *rapid.T) {
+				// the operator reinitialises the server's roots: nodes enrolled before hold
+				// chains of roots that are no longer this server's; they must re-enrol
+				if replaced >= 2 {
+					t.Skip()
+				}
+				replaced++
+				if _, err := rotation.RotateRootCertificates(w.Ctx, w.Store, w.O(append([]nodeenrollment.Option{nodeenrollment.WithReinitializeRoots(true)}, cfg.RootOpts...)...)...); err != nil {
+					t.Fatalf("reinitialise roots: %v", err)
+				}
+				nr := w.Roots()
+				rootCerts = rootCerts[:0]
+				for _, rc := range []*types.RootCertificate{nr.Current, nr.Next} {
+					c, _ := x509.ParseCertificate(rc.CertificateDer)
+					rootCerts = append(rootCerts, c)
+				}
+				for _, n := range nodes {
+					removedOnce[n.name] = true // any later connect of an earlier node is a non-trivial case
+				}
+				hist = append(hist, "replace-roots")
 			},
 			"fetch-client": func(t *rapid.T) {
 				// a pure fetch client (known or unknown key) never yields a connection
